@@ -71,7 +71,12 @@ class CallTimeout(Exception):
     """a single execution of the implementation exceeded its time limit (e.g. a changed loop that never ends)"""
 
 
+_TIMEOUTS = mp.Value("i", 0)      # shared with the forked workers: executions that ran into their time limit so far
+
+
 def _alarm(signum, frame):
+    with _TIMEOUTS.get_lock():
+        _TIMEOUTS.value += 1
     raise CallTimeout("execution exceeded the per-case time limit")
 
 
@@ -79,8 +84,13 @@ def _timed_call(args):
     import signal
 
     fn, item, secs = args
+    if _TIMEOUTS.value >= 6:
+        # a change that makes calls hang makes many of them hang: after a few full-length time-outs the remaining
+        # executions get a short limit, so that the check still ends (and reports them) in reasonable time
+        secs = min(secs, 3.0)
     signal.signal(signal.SIGALRM, _alarm)
-    signal.setitimer(signal.ITIMER_REAL, secs)
+    # repeating: a driver may swallow the first CallTimeout (e.g. around an earlier, unjudged call) and hang again
+    signal.setitimer(signal.ITIMER_REAL, secs, 2.0)
     try:
         return fn(item)
     finally:
@@ -283,12 +293,14 @@ class Ctx:
         if len(self.samples) < limit:
             self.samples.append(x)
 
-    def pmap(self, fn, items, procs=16, chunksize=8, limit=120.0):
+    def pmap(self, fn, items, procs=16, chunksize=8, limit=None):
         """Run fn over items in forked worker processes importing the real xgcm. Each item has a time limit: a case
         that never returns raises CallTimeout inside fn (drivers record it as the call's outcome)."""
         items = list(items)
         if not items:
             return []
+        if limit is None:
+            limit = 120.0 if self.tier == "thorough" else 40.0
         procs = int(os.environ.get("VERIF_PROCS", procs))          # VERIF_PROCS=1: in-process (line-coverage measurements)
         if procs <= 1 or len(items) < 4:
             setup_import_path()
